@@ -31,6 +31,7 @@ def shards(tier, seed):
             out.append(("helper", fi, path))
     out += [("concurrent", mode, cut) for mode in ("tasks", "threads") for cut in range(4)]
     out += [("after-bad-request", path) for path in MP.PATHS]
+    out += [("bigparts", path) for path in MP.PATHS]
     return out
 
 
@@ -58,6 +59,34 @@ def run_shard(desc, tier):
         r.sample({"boundary": boundary, "parts": describe(parts), "body_len": len(body), "partitions_covered": f"2^{max(len(body) - 1, 0)} (+ empty chunks)"})
     elif desc[0] == "concurrent":
         concurrent(r, desc[1], desc[2])
+    elif desc[0] == "bigparts":
+        # parts larger than any piece size a layer in between might use (64 KiB and around), arriving in few large chunks
+        path = desc[1]
+        fn = MP.PATHS[path]
+        for n in (65535, 65536, 65537, 70000, 140000):
+            for shape in ("file-last", "file-first", "field"):
+                blob = bytes((i * 7) % 251 for i in range(n))
+                if shape == "field":
+                    parts = [MP.part("t", None, b"x" * n), MP.part("after", None, b"tail")]
+                elif shape == "file-last":
+                    parts = [MP.part("t", None, b"head"), MP.part("u", "big.bin", blob)]
+                else:
+                    parts = [MP.part("u", "big.bin", blob), MP.part("t", None, b"tail")]
+                body = MR.encode(parts, b"bd")
+                want = MR.expected_items(parts)
+                for chunks in ([body], [body[:100], body[100:]], [body[:n // 2], body[n // 2:]], [body[i:i + 65536] for i in range(0, len(body), 65536)], [body[:-5], body[-5:]]):
+                    r.count("evaluations")
+                    r.count("traces")
+                    r.count("distinct_nontrivial")
+                    try:
+                        got = fn(chunks, b"bd", "utf-8")
+                    except Exception as e:  # noqa
+                        got = ("raised", type(e).__name__, str(e)[:100])
+                    if got != want:
+                        r.violation(f"bigparts:{path}", {"mode": "bigparts", "path": path, "n": n, "shape": shape, "chunks": [len(c) for c in chunks]},
+                                    f"{path}: a {n}-byte part ({shape}) in chunks {[len(c) for c in chunks]}: got {str(got)[:150]!r}..., expected the form")
+        r.count("states", 1)
+        r.sample({"bigparts": path, "sizes": [65535, 65536, 65537, 70000, 140000]})
     elif desc[0] == "after-bad-request":
         # what an earlier, broken request did to the process must not show in a later, well-formed one: first bodies whose
         # names / field text / header lines are not valid in the announced charset, an unknown charset, a truncated body, a
@@ -162,6 +191,9 @@ def finish(merged, tier):
 
 
 def replay(w):
+    if w["mode"] == "bigparts":
+        rr = run_shard(("bigparts", w["path"]), "quick")
+        return bool(rr.viol), {"violations": sorted(rr.viol)}
     if w["mode"] == "after-bad-request":
         rr = run_shard(("after-bad-request", w["path"]), "quick")
         return bool(rr.viol), {"violations": sorted(rr.viol), "texts": [v[2][:300] for v in rr.viol.values()]}
